@@ -68,12 +68,14 @@ def eval_dyad_amend(a, b, backend):
                     r[i] = b[0]
         return "".join(["".join(x) for x in r])
     r = np_backend.array(a) # clone
-    if is_list(b[0]): # TOOD: use bknp.put if we can
+    if is_list(b[0]) or r.ndim > 1 or (r.dtype != object and isinstance(b[0], str)): # TOOD: use bknp.put if we can
         r = r.tolist()
         for i in b[1:]:
             r[i] = b[0]
         r = backend.kg_asarray(r)
     else:
+        if r.dtype.kind in 'iu' and isinstance(b[0], (float, numpy.floating)):
+            r = r.astype(float)
         numpy.put(r, numpy.asarray(b[1:],dtype=int), b[0])
     return r
 
